@@ -213,9 +213,26 @@ func (vc *VC) Query(o *Obligation, axioms *AxiomSet) string {
 		body = append(body, "(assert "+sAnd(o.Guard, o.Cond)+")")
 	} else {
 		// skolemise the universally quantified parts of the goal so that generator-side instantiation sees the witnesses
-		goal, skDecls := skolemizeGoal(o.Cond)
-		decls = append(decls, skDecls...)
-		body = append(body, "(assert "+sAnd(o.Guard, sNot(goal))+")")
+		cases := phiCases(o.Cond, body)
+		if len(cases) == 0 {
+			goal, skDecls := skolemizeGoal(o.Cond)
+			decls = append(decls, skDecls...)
+			body = append(body, "(assert "+sAnd(o.Guard, sNot(goal))+")")
+		} else {
+			// quantified goal over a value merged from several paths (a phi): refute it path by path, with the
+			// merged name replaced by the value of that path, so that hypotheses about that value match syntactically
+			var alts, edges []string
+			for _, c := range cases {
+				g, skDecls := skolemizeGoal(c.cond)
+				decls = append(decls, skDecls...)
+				alts = append(alts, sAnd(c.edge, sNot(g)))
+				edges = append(edges, c.edge)
+			}
+			g, skDecls := skolemizeGoal(o.Cond)
+			decls = append(decls, skDecls...)
+			alts = append(alts, sAnd(sNot("(or "+strings.Join(edges, " ")+")"), sNot(g)))
+			body = append(body, "(assert "+sAnd(o.Guard, "(or "+strings.Join(alts, " ")+")")+")")
+		}
 	}
 	return vc.assemble(decls, body, axioms)
 }
@@ -250,6 +267,13 @@ func (vc *VC) assemble(decls, body []string, axioms *AxiomSet) string {
 				}
 			}
 		}
+	}
+	if !vc.lightAssemble {
+		// every closed quantified formula gets a Boolean name: instances "(=> FORALL inst)" then cost a few
+		// bytes instead of a copy of the quantifier, and the propositional structure is visible to the solver
+		var faDecls []string
+		text, axInst, faDecls = nameForalls(text, axInst)
+		decls = append(append([]string{}, decls...), faDecls...)
 	}
 	all := strings.Join(decls, "\n") + "\n" + strings.Join(axDecls, "\n") + "\n" + strings.Join(axInst, "\n") + "\n" + text
 	// datatype declarations needed
@@ -454,22 +478,25 @@ func instantiateForallsOnce(text string, seen map[string]bool) []string {
 		if len(pats) < 1 {
 			continue
 		}
-		pat := sexprParts(pats[0])
-		if len(pat) != 3 || pat[0] != "select" {
-			continue
-		}
-		arr, pidx := pat[1], pat[2]
-		var off string
-		switch {
-		case pidx == bv:
-			off = ""
-		default:
-			ip := sexprParts(pidx)
-			if len(ip) == 3 && ip[0] == "+" && ip[2] == bv && !strings.Contains(ip[1], bv) {
-				off = ip[1]
-			} else {
+		// the select of the pattern that is indexed by the bound variable (possibly nested inside field reads)
+		var arr, off string
+		found := false
+		for _, sa := range applications(pats[0], "select") {
+			if len(sa) != 2 || strings.Contains(sa[0], bv) {
 				continue
 			}
+			if sa[1] == bv {
+				arr, off, found = sa[0], "", true
+				break
+			}
+			ip := sexprParts(sa[1])
+			if len(ip) == 3 && ip[0] == "+" && ip[2] == bv && !strings.Contains(ip[1], bv) {
+				arr, off, found = sa[0], ip[1], true
+				break
+			}
+		}
+		if !found {
+			continue
 		}
 		arrE := norm(arr)
 		fam := heapFamily(arrE)
@@ -485,9 +512,27 @@ func instantiateForallsOnce(text string, seen map[string]bool) []string {
 				if pass == 1 && (na == arrE || heapFamily(na) != fam || fam == "" || strings.HasPrefix(na, "(select ") != strings.HasPrefix(arrE, "(select ")) {
 					continue
 				}
+				if pass == 1 && n > 0 {
+					break // the family fallback is only for quantifiers that found no syntactic match at all
+				}
 				inst := sl.idx
-				if off != "" {
+				if off != "" && pass == 1 {
+					// another name of (possibly) the same slice: use the logical index, never offset arithmetic across objects
+					ip := sexprParts(sl.idx)
+					if len(ip) != 3 || ip[0] != "+" || !strings.HasPrefix(ip[1], "(c-off ") {
+						continue
+					}
+					inst = ip[2]
+				} else if off != "" {
 					inst = "(- " + sl.idx + " " + off + ")"
+					// (+ off x) - off is x: keep instances in the shape the code and the contracts use
+					if ip := sexprParts(sl.idx); len(ip) == 3 && ip[0] == "+" {
+						if ip[1] == off || norm(ip[1]) == norm(off) {
+							inst = ip[2]
+						} else if ip[2] == off || norm(ip[2]) == norm(off) {
+							inst = ip[1]
+						}
+					}
 				}
 				g := "(assert (=> " + fa + " " + strings.ReplaceAll(body, bv, inst) + "))"
 				if !seen[g] {
@@ -520,7 +565,142 @@ func balanced2(s string) bool {
 	return d == 0
 }
 
+// nameForalls replaces each outermost closed (forall ...) term of the assertions by a fresh Boolean
+// constant defined to be equal to it (a definitional extension: equisatisfiable for either polarity).
+func nameForalls(text string, axInst []string) (string, []string, []string) {
+	joined := text
+	for _, a := range axInst {
+		joined += "\n" + a
+	}
+	names := map[string]string{}
+	var order []string
+	idx := 0
+	for {
+		i := strings.Index(joined[idx:], "(forall ((")
+		if i < 0 {
+			break
+		}
+		start := idx + i
+		fa := balancedAt(joined, start)
+		if fa == "" {
+			idx = start + 9
+			continue
+		}
+		idx = start + len(fa) // outermost only: skip what is nested inside
+		if _, ok := names[fa]; ok {
+			continue
+		}
+		// closed: every q! variable it mentions is bound inside it
+		closed := true
+		for _, tok := range strings.FieldsFunc(fa, func(r rune) bool { return r == '(' || r == ')' || r == ' ' }) {
+			if strings.HasPrefix(tok, "q!") && !strings.Contains(fa, "("+tok+" ") {
+				closed = false
+				break
+			}
+			if strings.HasPrefix(tok, "AXV!") {
+				closed = false
+				break
+			}
+		}
+		if !closed || len(fa) < 80 {
+			continue
+		}
+		names[fa] = fmt.Sprintf("fa!%d", len(names))
+		order = append(order, fa)
+	}
+	if len(order) == 0 {
+		return text, axInst, nil
+	}
+	// longest first, so that a formula that contains another named one as a proper part is handled consistently
+	sort.SliceStable(order, func(i, j int) bool { return len(order[i]) > len(order[j]) })
+	var decls, defs []string
+	rep := func(t string) string {
+		for _, fa := range order {
+			if strings.Contains(t, fa) {
+				t = strings.ReplaceAll(t, fa, names[fa])
+			}
+		}
+		return t
+	}
+	text = rep(text)
+	out := make([]string, len(axInst))
+	for i, a := range axInst {
+		out[i] = rep(a)
+	}
+	for k, fa := range order {
+		decls = append(decls, fmt.Sprintf("(declare-const %s Bool)", names[fa]))
+		body := fa
+		for _, other := range order[k+1:] {
+			if strings.Contains(body, other) {
+				body = strings.ReplaceAll(body, other, names[other])
+			}
+		}
+		defs = append(defs, fmt.Sprintf("(assert (= %s %s))", names[fa], body))
+	}
+	return strings.Join(defs, "\n") + "\n" + text, out, decls
+}
+
 var skCounter int
+
+type phiCase struct{ edge, cond string }
+
+var phiDefLine = regexp.MustCompile(`^\(assert \(=> (.+) \(= ([A-Za-z_!][^ ()]*) (.+)\)\)\)$`)
+var valTok = regexp.MustCompile(`[A-Za-z_.$0-9]*v![A-Za-z0-9_.]+`)
+
+// phiCases: for a quantified goal that mentions a value defined by phi equations "(=> EDGE (= NAME TERM))",
+// returns the goal specialised to each incoming edge. Only the first such name with 2..4 cases is expanded.
+func phiCases(goal string, body []string) []phiCase {
+	if !strings.Contains(goal, "(forall ") {
+		return nil
+	}
+	names := map[string]bool{}
+	for _, n := range valTok.FindAllString(goal, -1) {
+		names[n] = true
+	}
+	defs := map[string][]phiCase{}
+	other := map[string]bool{}
+	for _, l := range body {
+		if !strings.HasPrefix(l, "(assert (=> ") {
+			continue
+		}
+		inner := l[len("(assert ") : len(l)-1]
+		parts := sexprParts(inner)
+		if len(parts) != 3 || parts[0] != "=>" {
+			continue
+		}
+		eq := sexprParts(parts[2])
+		if len(eq) != 3 || eq[0] != "=" || !names[eq[1]] {
+			continue
+		}
+		if strings.Contains(eq[2], eq[1]) {
+			other[eq[1]] = true
+			continue
+		}
+		defs[eq[1]] = append(defs[eq[1]], phiCase{edge: parts[1], cond: eq[2]})
+	}
+	var ns []string
+	for n := range defs {
+		ns = append(ns, n)
+	}
+	sort.Strings(ns)
+	for _, n := range ns {
+		cs := defs[n]
+		if other[n] || len(cs) < 2 || len(cs) > 4 {
+			continue
+		}
+		var out []phiCase
+		re := regexp.MustCompile(`(^|[ (])` + regexp.QuoteMeta(n) + `($|[ )])`)
+		for _, c := range cs {
+			g := goal
+			for re.MatchString(g) {
+				g = re.ReplaceAllString(g, "${1}"+strings.ReplaceAll(c.cond, "$", "$$")+"${2}")
+			}
+			out = append(out, phiCase{edge: c.edge, cond: g})
+		}
+		return out
+	}
+	return nil
+}
 
 // skolemizeGoal replaces every positively occurring (forall ((v Int)) body) of a goal by body[v := fresh constant].
 // Proving the result for arbitrary constants proves the goal.
